@@ -529,6 +529,7 @@ func Run(c *evid.Ctx) {
 	}
 	licenceHistories(c, hd, &evals, &nontriv)
 	headerHelper(c, lics, pcodes, &evals, &nontriv)
+	builders(c, &evals, &nontriv)
 	vnet.Use(nil)
 	c.Count("evaluations", evals)
 	c.Count("distinct_nontrivial", nontriv)
